@@ -34,7 +34,13 @@ def rule_validate(ctx):
         if runs and rets and min(e.order for e in rets) < min(e.order for e in runs):
             g = [g for g in rets[0].guards if "call:in_range" in g[1]][0]
             neg = g[1].startswith("not(") and g[0] == "+" or (not g[1].startswith("not(") and g[0] == "-")
-            if neg:
+            # the check is unconditional: every return of the range error that sits under a further condition (a
+            # configuration switch such as fit_intercept) leaves the targets unchecked on the other branch
+            uncond = [e for e in rets if not [g2 for g2 in e.guards if "call:in_range" not in g2[1]]]
+            if neg and not uncond:
+                extra = [g2 for g2 in rets[0].guards if "call:in_range" not in g2[1]]
+                res.violate("%s : target-range-check-conditional" % key, "the target range check is made only under `%s`: with the condition false the targets are handed to the optimiser unchecked" % extra[0][1][:80], fn_loc(fn, rets[0].node["ln"]))
+            elif neg:
                 res.ok()
                 res.sample({"fn": key, "guard": g[1][:80]})
             else:
@@ -608,4 +614,10 @@ def rule_chain(ctx):
 
 
 def rules(tier):
-    return [rule_validate, rule_lse, rule_same, rule_dispatch, rule_penalty, rule_ratio, rule_memorder, rule_chain, rule_derivpaths, rule_stop]
+    from . import carry, c04
+    from . import extrema
+    from . import precision
+    return [rule_validate, rule_lse, rule_same, rule_dispatch, rule_penalty, rule_ratio, rule_memorder, rule_chain, rule_derivpaths, rule_stop,
+            carry.make_clone_rule("R-C12-clone", {"linfa_logistic", "linfa_linear"}, 6), carry.make_setter_rule("R-C12-override", {"linfa_logistic", "linfa_linear"}, 8), c04.make_carry_rule("R-C12-carry", {"LogisticRegressionParams", "TweedieRegressorParams"}, 6),
+            extrema.make_rule("R-C12-extrema", "the maxima the logistic log-sum-exp / soft-max are shifted by are real maxima: the folds start from -infinity / min_value or from data", lambda f: f["d"]["krate"] == "linfa_logistic", 1, "the max folds of log_sum_exp / softmax in linfa-logistic"),
+            precision.make_rule("R-C12-precision", lambda f: f["d"]["krate"] in ("linfa_logistic", "linfa_linear"), 100, "linfa-logistic and linfa-linear")]
